@@ -104,6 +104,13 @@ func (e *exec) floorValue(s opSpec) uint64 {
 			d = 0
 		}
 		return mk(now, d)
+	case 7:
+		// numeric edges of the id space: a restored maximum is an arbitrary uint64
+		// (caller-supplied message ids reach the backup manifest unchanged). Above
+		// every clock-derived id the fence must be REFUSED; accepting it would let
+		// Next keep issuing ids below it.
+		edges := []uint64{1<<63 - 1, 1 << 63, 1<<63 + 3, ^uint64(0) - 2, ^uint64(0), 1}
+		return edges[(s.delta+2+len(edges))%len(edges)]
 	default:
 		// around the greatest id returned so far; with positive deltas this again
 		// lands on ids that are drawn but unpublished (same millisecond: consecutive)
@@ -320,6 +327,13 @@ func (e *exec) noteProbes() {
 			} else {
 				e.r.Probe("setfloor.rejected_clock_not_above_fence")
 			}
+			if c.floor >= 1<<63-1 {
+				if c.err != nil {
+					e.r.Probe("setfloor.numeric_edge_fence_refused")
+				} else {
+					e.r.Probe("setfloor.numeric_edge_fence_accepted")
+				}
+			}
 		}
 	}
 }
@@ -375,8 +389,8 @@ func runC30(t *testing.T, r *simkit.Run) {
 func runExhaustive(r *simkit.Run, cur **exec) {
 	tp := r.Tape
 	shape := tp.Weighted(shapeWeights)
-	fkind := []int{1, 2, 5, 3, 6}[tp.Intn(5)]
-	delta := tp.Intn(5) - 1 // -1..3
+	fkind := []int{1, 2, 5, 3, 6, 7}[tp.Intn(6)]
+	delta := tp.Intn(6) - 2 // -2..3 (also selects which numeric edge fkind 7 uses: all six)
 	// clock: 0 frozen, 1 = 300us after every decision, 2 = 1ms after every decision
 	clock := tp.Intn(3)
 	node := int64(1 + tp.Intn(3))
@@ -491,10 +505,10 @@ func runSample(r *simkit.Run, cur **exec) {
 		total += n
 	}
 	at := tp.Intn(len(progs[setter]) + 1)
-	f := opSpec{kind: 'F', fkind: tp.Weighted([]int{1, 2, 2, 2, 1, 4, 4}), delta: tp.Intn(7) - 2}
+	f := opSpec{kind: 'F', fkind: tp.Weighted([]int{1, 2, 2, 2, 1, 4, 4, 1}), delta: tp.Intn(7) - 2}
 	progs[setter] = append(progs[setter][:at], append([]opSpec{f}, progs[setter][at:]...)...)
 	if tp.Chance(1, 3) { // a second fence from the same task
-		f2 := opSpec{kind: 'F', fkind: tp.Weighted([]int{1, 2, 2, 2, 1, 4, 4}), delta: tp.Intn(7) - 2}
+		f2 := opSpec{kind: 'F', fkind: tp.Weighted([]int{1, 2, 2, 2, 1, 4, 4, 1}), delta: tp.Intn(7) - 2}
 		progs[setter] = append(progs[setter], f2)
 	}
 	r.Config = map[string]any{"mode": "sample", "tasks": k, "calls": total, "setter": setter, "node": node, "jumps": jumps}
